@@ -146,6 +146,15 @@ def generate(prop, rng, run, tier):
         cfg["spelling"] = rng.choice(["dslash", "dot", "rel"])
     if prop == "C05":
         cfg["followup_noop"] = True
+        if rng.random() < 0.35:
+            # history: the same file NAME held other content (another encoding) when it
+            # was opened earlier in the same process
+            denc = rng.choice(["utf-8", "cp1252", "cp932", "cp949"])
+            dtext = gen.gen_simfile_text(rng, fmt, "enc:" + denc, nparams=3, ncharts=0)
+            try:
+                cfg["decoy"] = dtext.encode(denc).hex()
+            except UnicodeEncodeError:
+                pass
         if rng.random() < 0.3:
             cfg["explicit_encoding"] = rng.choice(["utf-8", "cp1252", "cp932", "cp949", "latin-1"])
     return sc
@@ -429,9 +438,23 @@ def check_c05(sc, res):
             res.violate(P, "backup-clash-changed-disk")
         res.note("clash", facade, cfg["fmt"], bool(out))
         return
+    if cfg.get("decoy"):
+        ddata = bytes.fromhex(cfg["decoy"])
+        dsc = dict(sc)
+        dsc["config"] = dict(cfg, explicit_encoding=None)
+        dfiles = dict(sc["world"]["files"])
+        dfiles[cfg["input"]] = cfg["decoy"]
+        dsc["world"] = {"dirs": sc["world"]["dirs"], "files": dfiles}
+        denc, dkind, dexpect = _expect_entry(dsc, ddata, facade)
+        _check_open(dsc, res, ddata, denc, dkind, dexpect)
+        res.stats["probe:decoy-content-opened-first"] += 1
+        if res.violations:
+            return
     enc, kind, expect = _expect_entry(sc, data, facade)
     # --- clause 1: open_with_detected_encoding / open(encoding=)
     _check_open(sc, res, data, enc, kind, expect)
+    if res.violations:
+        return
     o = run_once(sc)
     res.evaluations += 1
     res.steps += len(o.disk.events) + len(sc["ops"])
@@ -499,6 +522,17 @@ def check_c05(sc, res):
         return
     out_path = norm(out) if out else inp
     after_files = o.after[0]
+    if out_path not in after_files:
+        res.violate(P, "output-file-not-written", output=out_path, ops=len(sc["ops"]))
+        return
+    if bak and norm(bak) not in after_files:
+        res.violate(P, "backup-file-not-written", backup=norm(bak), ops=len(sc["ops"]))
+        return
+    if out and out_path != inp and out_path in o.before[0] and after_files[out_path] == o.before[0][out_path] \
+            and _parse_file(after_files[out_path], enc, kind).__class__ is not LoadError \
+            and _parse_file(after_files[out_path], enc, kind).plain() != _exit_expect_plain(model_exit):
+        res.violate(P, "stale-output-left-in-place", output=out_path)
+        return
     # output parses to the simfile at block exit, in the encoding it was read in
     got = _parse_file(after_files.get(out_path, b""), enc, kind)
     if isinstance(got, LoadError) or got.plain() != _exit_expect_plain(model_exit):
@@ -537,6 +571,20 @@ def check_c05(sc, res):
         enc2 = ref_encoding(written, try_list)
         sc2 = dict(sc)
         sc2["world"] = {"dirs": sorted(o.after[1]), "files": {p: b.hex() for p, b in after_files.items()}}
+        # opening what was just written reports the first encoding that decodes *it*
+        # (nothing remembered from the earlier opens of this name) and loads the exit simfile
+        sc3 = dict(sc2)
+        sc3["config"] = dict(cfg, input=out if out else cfg["input"], explicit_encoding=None)
+        if enc2 is not None:
+            k3 = models.ref_detect(sc3["config"]["input"], _decoded(written, enc2, facade), True)
+            exp3 = k3 if isinstance(k3, LoadError) else \
+                ref_load(_decoded(written, enc2, facade), k3, bool(cfg.get("strict", True)))
+            nv = len(res.violations)
+            _check_open(sc3, res, written, enc2, k3 if not isinstance(k3, LoadError) else None, exp3)
+            if len(res.violations) > nv:
+                for v in res.violations[nv:]:
+                    v.clause = "after-save-" + v.clause
+                return
         o2 = run_once(sc2, noop_on=out if out else cfg["input"])
         res.evaluations += 1
         if enc2 == enc:
